@@ -291,7 +291,7 @@ def check(run, replay_path=None):
     from verif.tlc import SPEC_DIR
     # 1. design: exhaustive model check (3 objects, 2 keys, all attribute vectors)
     res = run_tlc('MultiKeyMC', 'MultiKey_mc.cfg', coverage=True)
-    run.add_tlc(res, ['Add', 'AddRejected', 'AddAgain', 'Remove', 'RemoveAbsent', 'Update', 'Clear'])
+    run.add_tlc(res, ['Add', 'AddRejected', 'AddAgain', 'Remove', 'RemoveAbsent', 'Update', 'UpdateRejected', 'Clear'])
     run.note('exhaustive', True)
     run.note('model_constants', {'O': 3, 'K': 2, 'indices': 4})
 
